@@ -4,7 +4,7 @@ import ast
 
 from .. import AnalysisError
 from ..cfg import ALL_KINDS, NORMAL_KINDS, iter_own
-from ..lib import iteration_paths, attr_stores, dominated_by, guard_forms, key_of, norm, render, type_is
+from ..lib import comp_norm, iteration_paths, attr_stores, dominated_by, guard_forms, key_of, norm, render, type_is
 from ..report import describe, rule
 
 P = "C17"
@@ -34,12 +34,14 @@ def c17_1(ctx, r):
     ser = cls.methods["serialize"]
     # dict literal + conditional subscript stores in serialize
     emitted = {}
+    sret = [n for n in iter_own(ser.node) if isinstance(n, ast.Return) and isinstance(n.value, ast.Name)]
+    DV = sret[-1].value.id if sret else None
     for n in iter_own(ser.node):
-        if isinstance(n, ast.Assign) and isinstance(n.value, ast.Dict) and ctx.src(n.targets[0]) == "data":
+        if isinstance(n, ast.Assign) and isinstance(n.value, ast.Dict) and DV and ctx.src(n.targets[0]) == DV:
             for k, v in zip(n.value.keys, n.value.values):
                 if isinstance(k, ast.Constant):
                     emitted[k.value] = v
-        if isinstance(n, ast.Assign) and isinstance(n.targets[0], ast.Subscript) and ctx.src(n.targets[0].value) == "data" and isinstance(n.targets[0].slice, ast.Constant):
+        if isinstance(n, ast.Assign) and isinstance(n.targets[0], ast.Subscript) and DV and ctx.src(n.targets[0].value) == DV and isinstance(n.targets[0].slice, ast.Constant):
             emitted[n.targets[0].slice.value] = n.value
     if len(emitted) < 8:
         raise AnalysisError("C17.1", f"only {len(emitted)} keys recognised in serialize()")
@@ -81,7 +83,7 @@ def c17_1(ctx, r):
                 "loading it back yields the same ... lifecycle commands", value=ctx.src(v))
     # jobs: emitted in iteration order, re-added in order
     jv = emitted.get("jobs")
-    r.check(jv is not None and ctx.src(jv).replace(" ", "") == "[x.serialize()forxinself.iter_jobs()]", "jobs are emitted in iteration order, unfiltered", key_of(ser, "jobs emission"), ser.loc(), f"jobs = {ctx.src(jv) if jv is not None else None}", "the same jobs in the same order")
+    r.check(jv is not None and comp_norm(jv) == "[_.serialize()for_inself.iter_jobs()]", "jobs are emitted in iteration order, unfiltered", key_of(ser, "jobs emission"), ser.loc(), f"jobs = {ctx.src(jv) if jv is not None else None}", "the same jobs in the same order")
     dj = cls.methods["_deserialize_jobs"]
     loops = [n for n in dj.node.body if isinstance(n, ast.For)]
     jparam = [p for p in dj.params if p != "self"][0]
@@ -145,8 +147,8 @@ def c17_1(ctx, r):
                 okdump = site is not None and site.calls_short(ctx.ix, f"{JC}.serialize") and ctx.src(c.args[1]) in dump.params
     r.check(okdump, "dump writes serialize() as JSON to the given stream", key_of(dump, "dump"), dump.loc(), "_dump no longer writes self.serialize() with json.dump to its stream")
     sg = emitted.get("submission_groups")
-    r.check(sg is not None and ctx.src(sg).replace(" ", "") == "[x.dict()forxinself.submission_groups]", "groups are emitted in order as dicts", key_of(ser, "groups emission"), ser.loc(), f"submission_groups = {ctx.src(sg) if sg is not None else None}")
-    okg = any(isinstance(n, ast.Assign) and ctx.src(n.targets[0]) == "self._submission_groups" and ctx.src(n.value).replace(" ", "") == "[SubmissionGroup(**x)forxinsubmission_groupsor[]]" for n in iter_own(init.node))
+    r.check(sg is not None and comp_norm(sg) == "[_.dict()for_inself.submission_groups]", "groups are emitted in order as dicts", key_of(ser, "groups emission"), ser.loc(), f"submission_groups = {ctx.src(sg) if sg is not None else None}")
+    okg = any(isinstance(n, ast.Assign) and ctx.src(n.targets[0]) == "self._submission_groups" and comp_norm(n.value) == "[SubmissionGroup(**_)for_insubmission_groupsor[]]" for n in iter_own(init.node))
     r.check(okg, "groups are rebuilt in order from those dicts", key_of(init, "groups load"), init.loc(), "submission_groups are no longer rebuilt as [SubmissionGroup(**x) ...]")
 
 
@@ -169,9 +171,11 @@ def c17_2(ctx, r):
         r.check(f in mdl.ann_fields and has_default, f"droppable field '{f}' declares a default", key_of(d, f"drops {f}"), d.loc(lp),
                 f"dict() may drop '{f}', which {'is not a field' if f not in mdl.ann_fields else 'declares no default'}: loading the file back fails or yields another value", "yields the same ... flags")
     tests = [n for n in ast.walk(lp) if isinstance(n, ast.If)]
-    okt = len(tests) == 1 and ctx.src(tests[0].test).replace(" ", "") == f"data[{ctx.src(lp.target)}]==GenericCommandParametersModel.__fields__[{ctx.src(lp.target)}].default"
+    dret = [n for n in iter_own(d.node) if isinstance(n, ast.Return) and isinstance(n.value, ast.Name)]
+    DATA = dret[-1].value.id if dret else None
+    okt = len(tests) == 1 and DATA is not None and ctx.src(tests[0].test).replace(" ", "") == f"{DATA}[{ctx.src(lp.target)}]==GenericCommandParametersModel.__fields__[{ctx.src(lp.target)}].default"
     r.check(okt, "a field is dropped only when its value equals the declared default", key_of(d, "drop condition"), d.loc(lp), f"drop condition is `{ctx.src(tests[0].test) if tests else None}`", "yields the same ... flags")
-    pops = [n for n in iter_own(d.node) if isinstance(n, ast.Call) and ctx.src(n.func) == "data.pop"]
+    pops = [n for n in iter_own(d.node) if isinstance(n, ast.Call) and DATA and ctx.src(n.func) == f"{DATA}.pop"]
     r.check(all(any(l is lp for l in ctx.enclosing(d, n, (ast.For,))) for n in pops) and len(pops) == 1, "nothing else is removed from the dict", key_of(d, "pops"), d.loc(), f"{len(pops)} pops")
     spc = ctx.cls("SubmitterParams")
     sp = spc.methods.get("dict")
@@ -184,7 +188,9 @@ def c17_2(ctx, r):
                         return ctx.src(k.value)
             return "<required>"
 
-        pops = [x for x in iter_own(sp.node) if isinstance(x, ast.Call) and ctx.src(x.func) in ("data.pop", "data.__delitem__")]
+        sret = [x for x in iter_own(sp.node) if isinstance(x, ast.Return) and isinstance(x.value, ast.Name)]
+        SD = sret[-1].value.id if sret else "data"
+        pops = [x for x in iter_own(sp.node) if isinstance(x, ast.Call) and ctx.src(x.func) in (f"{SD}.pop", f"{SD}.__delitem__")]
         comps = [x for x in iter_own(sp.node) if isinstance(x, ast.DictComp)]
         dels = [x for x in iter_own(sp.node) if isinstance(x, ast.Delete)]
         recognised = False
@@ -192,13 +198,14 @@ def c17_2(ctx, r):
             recognised = True
             fld = n.args[0].value if isinstance(n.args[0], ast.Constant) else None
             forms = [f for cn in ctx.nodes_of(sp, n) for f, p in guard_forms(ctx, sp, cn) if p]
-            okn = any(f.replace("'", '"') == f'data["{fld}"] is None' for f in forms)
+            okn = any(f.replace("'", '"') == f'{SD}["{fld}"] is None' for f in forms)
             r.check(okn and default_of(fld) == "None", f"SubmitterParams drops '{fld}' only when None (its default)", key_of(sp, f"drops {fld}"), sp.loc(n), f"SubmitterParams.dict() drops '{fld}' under {forms} (default {default_of(fld)})")
         for c in comps:
             recognised = True
             g = c.generators[0]
+            vv = ctx.src(g.target.elts[1]) if isinstance(g.target, ast.Tuple) and len(g.target.elts) == 2 else "v"
             conds = [ctx.src(i).replace(" ", "") for i in g.ifs]
-            if "data.items()" in ctx.src(g.iter) and conds in (["visnotNone"], ["notvisNone"]):
+            if ".items()" in ctx.src(g.iter) and conds in ([f"{vv}isnotNone"], [f"not{vv}isNone"]):
                 # every field that may hold None is dropped when None: each must default to None
                 for fld, ann in sorted(spc.ann_fields.items()):
                     if "Optional" in ctx.src(ann):
@@ -211,7 +218,7 @@ def c17_2(ctx, r):
             raise AnalysisError("C17.2", "SubmitterParams.dict uses del (unrecognised idiom)")
         if not recognised:
             rets = [x for x in iter_own(sp.node) if isinstance(x, ast.Return)]
-            r.check(all(ctx.src(x.value) in ("data", "super().dict(*args, **kwargs)") for x in rets), "SubmitterParams.dict drops nothing", key_of(sp, "dict shape"), sp.loc(), "SubmitterParams.dict has an unrecognised shape")
+            r.check(all(isinstance(x.value, ast.Name) or ctx.src(x.value) == "super().dict(*args, **kwargs)" for x in rets), "SubmitterParams.dict drops nothing", key_of(sp, "dict shape"), sp.loc(), "SubmitterParams.dict has an unrecognised shape")
     gp = ctx.fn("GenericCommandParameters.serialize", "C17.2")
     from ..lib import only_return
 
@@ -251,6 +258,16 @@ def c17_3(ctx, r):
     for s in ctx.callers_of(init):
         if isinstance(s.node.func, ast.Name) and s.node.func.id == "cls":
             r.check(s.fn.short in ("JobSubmitter.create", "JobSubmitter.load"), f"JobSubmitter constructed in {s.fn.short}", key_of(s.fn, "constructs JobSubmitter"), s.loc, f"{s.fn.short} constructs a JobSubmitter without checks")
+
+
+def _is_must_cmp(ctx, fn, form):
+    """`a == b` where both locals are bound to getattr(<group>.submitter_params, <param>) in the same loop body."""
+    a, b = [x.strip() for x in form.split("==")]
+    defs = {}
+    for n in iter_own(fn.node):
+        if isinstance(n, ast.Assign) and isinstance(n.targets[0], ast.Name) and n.targets[0].id in (a, b) and isinstance(n.value, ast.Call) and ctx.src(n.value.func) == "getattr":
+            defs[n.targets[0].id] = ctx.src(n.value.args[0])
+    return set(defs) == {a, b} and all(v.endswith(".submitter_params") for v in defs.values())
 
 
 @rule(P, "C17.4", "T1+T6", "each listed invalidity has a raising check on the creation path", min_obligations=8)
@@ -311,10 +328,12 @@ def c17_4(ctx, r):
     r.check(ctx.ty.attr_type(base, "_jobs") is not None and any(isinstance(n, ast.Assign) and ctx.src(n.targets[0]) == "self._jobs" and "JobContainerByName()" in ctx.src(n.value) for n in iter_own(base.methods["__init__"].node)), "the default container is JobContainerByName", key_of(base.methods["__init__"], "container"), base.methods["__init__"].loc(), "the default job container changed")
     cg = ctx.fn(f"{JC}.check_submission_groups", "C17.4")
     raises_under(cg, lambda f, p: p and f.replace(" ", "") in ("<JobParametersInterface.submission_group>isNone", "job.submission_groupisNone"), "a job without a group raises", "absent group check", "a job without a valid submission group")
-    raises_under(cg, lambda f, p: (not p) and f.replace(" ", "").endswith("ingroup_names") and "job" in f.lower() or ((not p) and "submission_group" in f and "group_names" in f), "a job naming an unknown group raises", "unknown group check", "a job without a valid submission group")
-    raises_under(cg, lambda f, p: p and f.replace(" ", "") in ("<SubmissionGroup.name>ingroup_names", "group.nameingroup_names"), "a group listed twice raises", "duplicate group check", "inconsistent group-wide settings")
+    import re as _re2
+
+    raises_under(cg, lambda f, p: (not p) and bool(_re2.fullmatch(r"(<JobParametersInterface\.submission_group>|\w+\.submission_group) in \w+", f)), "a job naming an unknown group raises", "unknown group check", "a job without a valid submission group")
+    raises_under(cg, lambda f, p: p and bool(_re2.fullmatch(r"(<SubmissionGroup\.name>|\w+\.name) in \w+", f)), "a group listed twice raises", "duplicate group check", "inconsistent group-wide settings")
     raises_under(cg, lambda f, p: (not p) and "hpc_type" in f and "==" in f, "differing hpc_type raises", "hpc_type check", "inconsistent group-wide settings")
-    raises_under(cg, lambda f, p: (not p) and f.replace(" ", "") == "this_val==first_val", "a differing must_be_same value raises", "must_be_same check", "inconsistent group-wide settings")
+    raises_under(cg, lambda f, p: (not p) and bool(_re2.fullmatch(r"\w+ == \w+", f)) and _is_must_cmp(ctx, cg, f), "a differing must_be_same value raises", "must_be_same check", "inconsistent group-wide settings")
     gset = None
     for n in ctx.cfg(cg).nodes:
         if n.kind == "stmt" and isinstance(n.ast, ast.Raise):
@@ -333,7 +352,7 @@ def c17_4(ctx, r):
     okjobs = any(all_jobs_loop(cg, x) and any(isinstance(y, ast.Raise) for y in ast.walk(x)) for x in iter_own(cg.node) if isinstance(x, ast.For))
     r.check(okadd and okjobs, "every group name is recorded and every job is examined", key_of(cg, "domain"), cg.loc(), "check_submission_groups no longer records all group names / visits all jobs")
     ct = ctx.fn(f"{JC}.check_job_runtimes", "C17.4")
-    raises_under(ct, lambda f, p: p and f.replace(" ", "") == "wall_time<estimate", "an estimate above the group's walltime raises", "runtime check", "an estimated runtime above the walltime")
+    raises_under(ct, lambda f, p: p and bool(_re2.fullmatch(r"\w+ < \w+", f)) or (p and "estimated_run_minutes" in f and " < " in f), "an estimate above the group's walltime raises", "runtime check", "an estimated runtime above the walltime")
     okrt = False
     for n in ctx.cfg(ct).nodes:
         if n.kind == "test" and isinstance(n.ast, ast.Compare) and len(n.ast.ops) == 1 and isinstance(n.ast.ops[0], (ast.Gt, ast.Lt)):
@@ -370,8 +389,10 @@ def c17_4(ctx, r):
     for n in ctx.cfg(cg).nodes:
         if n.kind == "stmt" and isinstance(n.ast, ast.Raise):
             forms = guard_forms(ctx, cg, n)
-            if any((not p) and f.replace(" ", "") == "this_val==first_val" for f, p in forms):
-                extra = sorted(("" if p else "not ") + f for f, p in forms if ("first_val" in f or "this_val" in f) and f.replace(" ", "") not in ("this_val==first_val", "first_val==this_val"))
+            cmpf = [f for f, p in forms if (not p) and _re2.fullmatch(r"\w+ == \w+", f) and _is_must_cmp(ctx, cg, f)]
+            if cmpf:
+                ops = {x.strip() for f in cmpf for x in f.split("==")}
+                extra = sorted(("" if p else "not ") + f for f, p in forms if any(_re2.search(rf"\b{o}\b", f) for o in ops) and f not in cmpf)
                 r.check(not extra, "the must_be_same comparison raises whatever the first group's value is", key_of(cg, f"must_be_same also requires {extra}"), cg.loc(n.ast),
                         f"a differing group-wide setting is rejected only if additionally {extra}: e.g. max_nodes unset in the first group and set in a later one is accepted, and the later limit is silently ignored",
                         "inconsistent group-wide settings")
@@ -418,3 +439,27 @@ def c17_7(ctx, r):
     from .c02 import c02_10
 
     c02_10(ctx, r)
+
+
+@rule(P, "C17.8", "T16", "every loop reads its control variable (a per-group / per-job adjustment is applied to each element, not to a stale outer binding)", min_obligations=50)
+def c17_8(ctx, r):
+    from ..lib import unused_loop_variables
+
+    nloops = 0
+    for f in ctx.ix.functions.values():
+        if f.module.name.startswith("jade.extensions.demo") or f.parent is not None:
+            continue
+        loops = [n for n in ast.walk(f.node) if isinstance(n, (ast.For, ast.AsyncFor))]
+        nloops += len(loops)
+        bad = {id(n): v for n, v in unused_loop_variables(f.node)}
+        for n in loops:
+            if id(n) in bad:
+                v = bad[id(n)]
+                r.bad(key_of(f, f"loop variable {v} unused in `for ... in {ctx.src(n.iter)[:40]}`"), f.loc(n),
+                      f"the loop over `{ctx.src(n.iter)}` never reads its variable `{v}`: the body acts on an outer binding instead - the same element every time. In the CLI that adjusts each submission group's "
+                      "poll_interval this leaves all but the first group unadjusted, and check_submission_groups then rejects a valid multi-group configuration ('must be the same in all groups')",
+                      "every valid configuration is accepted")
+            else:
+                r.ok("loop reads its variable")
+    if nloops < 100:
+        raise AnalysisError("C17.8", f"only {nloops} for-loops found in the package")
